@@ -23,13 +23,100 @@ static void cv_name(int ev, char *buf, size_t cap) { if (ev == SIB_CV) { snprint
 static void touch_if0(void) { if (IFX) { pev d = ev_discover(0, ST_M3, ST_M3, 0x7777, 3); vf_trace_clear(); drv_linux(&d, 0); pev p = ev_probe(0x04, 0, ST_S1, ST_S1, ST_OWN, ST_OWN); drv_linux(&p, 0); vf_trace_clear(); } }
 static void root_setup(void) { M.arb.v = ARB_NONE; touch_if0(); }
 
+static void apply_pev(const pev *e);
 static void apply(int ev) {
-    const pev *e = &EV[ev];
-    if (ev == SIB_EV) { drv_linux(e, 1); return; }
+    if (ev == SIB_EV) { drv_linux(&EV[ev], 1); return; }
+    apply_pev(&EV[ev]);
+}
+static void apply_pev(const pev *e) {
     int expect = arb_step(&M.arb, e);
     drv_linux(e, IFX);
     if (mode == 2) { oracle_wellformed(IFX); oracle_solicited(e); }
     if (mode == 3) oracle_hello(e, IFX, expect);
+}
+
+/* ------------------------------------------------------------------ c03 value sweep
+ * Every 16-bit value of the generation and of the sequence number of a Discover, in 10 states per service
+ * (fresh; after an accepted Discover with generation 0x1234 / 0x0100 / 0x00ff / 0xffff; the same after a Hello of
+ * a neighbour was heard), direct and bridged: the closure above uses a handful of values, a defect keyed to a
+ * relation between two values (byte swap, equal bytes, low byte zero, wrap) needs the full range.
+ * pseudo path: [tos*2+bridged, prior index, field (0 generation, 1 sequence number), value] */
+static const uint16_t PRIOR_GEN[5] = {0, 0x1234, 0x0100, 0x00ff, 0xffff};
+static int vs_stage[4], vs_n; static uint64_t vs_cases;
+static void vs_case(int tb, int prior, int field, int v) {
+    int tos = tb >> 1, br = tb & 1;
+    vf_world_reset(); root_setup(); vf_trace_clear();
+    if (prior % 5) { pev d = ev_discover((uint8_t)tos, ST_M1, br ? ST_BR : ST_M1, PRIOR_GEN[prior % 5], 1); apply_pev(&d); vf_trace_clear(); }
+    if (prior >= 5) { pev h = ev_hello((uint8_t)tos, ST_PEER, 0x3412); apply_pev(&h); vf_trace_clear(); }
+    pev e = ev_discover((uint8_t)tos, ST_M1, br ? ST_BR : ST_M1, field == 0 ? (uint16_t)v : 0x4321, field == 1 ? (uint16_t)v : 2);
+    if (A.verbose) { char nm[160]; pev_name(&e, nm, sizeof nm); printf("    prior generation 0x%04x%s, then %s\n", PRIOR_GEN[prior % 5], prior >= 5 ? ", neighbour's Hello heard" : "", nm); }
+    apply_pev(&e);
+    vs_cases++;
+}
+static void vs_name(int ev, char *b, size_t cap) { snprintf(b, cap, "arg(%d)", ev); }
+static void vs_apply(int ev) { vs_stage[vs_n++] = ev; if (vs_n == 4) { vs_n = 0; vs_case(vs_stage[0], vs_stage[1], vs_stage[2], vs_stage[3]); } }
+static void vs_root(void) { vs_n = 0; }
+static e1_cfg vscfg = { .nev = 1 << 16, .ev_name = vs_name, .apply = vs_apply, .root_setup = vs_root };
+static void value_sweep03(void) {
+    static int p[4];
+    for (int tb = 0; tb < 4; tb++) for (int prior = 0; prior < 10; prior++) for (int field = 0; field < 2; field++) {
+        if (prior == 0 && field == 1 && !vf_thorough() && tb) continue;
+        /* one snapshot per state, restored for every value */
+        for (int v = 0; v < 65536; v++) {
+            if (!vf_thorough() && field == 1 && (v & 0xFF) > 2 && (v >> 8) > 2 && v < 0xFF00 && (v & 0xFF) < 0xFE) continue;     /* quick: sequence numbers with a boundary byte */
+            p[0] = tb; p[1] = prior; p[2] = field; p[3] = v; e1_manual_path(&vscfg, p, 4);
+            vs_case(tb, prior, field, v);
+            if ((v & 0x3FF) == 0) vf_outcome(vf_trace_hash());
+        }
+    }
+}
+
+/* ------------------------------------------------------------------ c02 noise sweep
+ * In 4 states (fresh; mapper M1 on the topology service; on the quick service; the former with an observation and
+ * a cached icon) every frame (service {0,1,2,3,0xFF} x opcode 0..255 x sequence number {0,1,0x0100,0xFFFF} x sender
+ * {the mapper, a stranger} x real destination {own, broadcast} x two bodies) is delivered once; well-formedness and
+ * solicitation oracles as in the closure.  The closure's alphabet has 107 events; a defect in the dispatch of a
+ * (service, opcode, sequence number) combination outside it needs the product.
+ * pseudo path: [state, tos index, opcode, seq index * 8 + sender * 4 + destination * 2 + body] */
+static const uint8_t NS_TOS[5] = {0, 1, 2, 3, 0xFF}; static const uint16_t NS_SEQ[4] = {0, 1, 0x0100, 0xFFFF};
+static int ns_stage[4], ns_n; static uint64_t ns_cases;
+static void ns_prepare(int state) {
+    vf_world_reset(); root_setup(); vf_trace_clear();
+    if (state == 1 || state == 3) { pev d = ev_discover(0, ST_M1, ST_M1, 0x1234, 1); apply_pev(&d); }
+    if (state == 2) { pev d = ev_discover(1, ST_M1, ST_M1, 0x1234, 1); apply_pev(&d); }
+    if (state == 3) { vf_trace_clear(); pev p = ev_probe(0x04, 0, ST_S0, ST_S0, ST_OWN, ST_OWN); apply_pev(&p); vf_trace_clear(); pev q = ev_qlt(0, ST_M1, ST_M1, 5, 0x0E, 0); apply_pev(&q); }
+    vf_trace_clear();
+}
+static void ns_frame(int ti, int op, int code) {
+    int si = code >> 3, who = (code >> 2) & 1, dst = (code >> 1) & 1, body = code & 1;
+    pev e = ev_raw(NS_TOS[ti], (uint8_t)op, who ? ST_M3 : ST_M1, who ? ST_M3 : ST_M1);
+    e.seq = NS_SEQ[si]; if (dst) { e.realdst = ST_BC; e.ethdst = ST_BC; }
+    static uint8_t b[256]; size_t len = pev_build(&e, 0, b);
+    if (body && op != 0x00 && op != 0x02 && op != 0x06 && op != 0x0B) { b[32] = 0x0E; b[33] = 0; b[34] = 0; b[35] = 0; }     /* what a misrouted frame would be read as: icon request, offset 0 */
+    vf_iface *fi = &W.iface[0]; memset(fi->recv, 0, fi->recv_prev_len);
+    vf_trace_clear(); arb_step(&M.arb, &e);
+    drv_linux_deliver(0, b, len);
+    oracle_wellformed(0); oracle_solicited(&e);
+    ns_cases++;
+    if (A.verbose) { char nm[160]; pev_name(&e, nm, sizeof nm); printf("    %s%s -> %d frame(s)\n", nm, body ? " [body 0e 00 00 00]" : "", tr_sends()); }
+}
+static void ns_name(int ev, char *b, size_t cap) { snprintf(b, cap, "arg(%d)", ev); }
+static void ns_apply(int ev) { ns_stage[ns_n++] = ev; if (ns_n == 4) { ns_n = 0; ns_prepare(ns_stage[0]); ns_frame(ns_stage[1], ns_stage[2], ns_stage[3]); } }
+static void ns_root(void) { ns_n = 0; }
+static e1_cfg nscfg = { .nev = 1 << 16, .ev_name = ns_name, .apply = ns_apply, .root_setup = ns_root };
+static void noise_sweep02(void) {
+    static int p[4];
+    for (int state = 0; state < 4; state++) {
+        ns_prepare(state);
+        vf_snap *s = vf_snapshot(&M, sizeof M);
+        for (int ti = 0; ti < 5; ti++) for (int op = 0; op < 256; op++) for (int code = 0; code < 32; code++) {
+            vf_restore(s, &M, sizeof M);
+            p[0] = state; p[1] = ti; p[2] = op; p[3] = code; e1_manual_path(&nscfg, p, 4);
+            ns_frame(ti, op, code);
+            if ((code & 7) == 0) vf_outcome(vf_trace_hash());
+        }
+        free(s);
+    }
 }
 
 /* ------------------------------------------------------------------ c19 on the protocol closure */
@@ -98,9 +185,23 @@ static void apply3(int ev, int world) { (void)world; drv_linux(&CV[ev], ev == SI
 static const char *sig_of(int ev) {
     static char b[32]; snprintf(b, sizeof b, "op=0x%02x,tos=%u", CV[ev].opcode, CV[ev].tos); return b;
 }
+#define FLOOD_BASE 100000      /* prefix code FLOOD_BASE + n: n Probe/Train observations with pairwise distinct sources; the oldest is the alphabet's Probe from S0 */
+static void flood09(int n) {
+    pev first = ev_probe(0x04, 0, ST_S0, ST_S0, ST_OWN, ST_OWN);
+    for (int k = 0; k < n; k++) {
+        vf_trace_clear();
+        if (k == 0) { drv_linux(&first, 0); continue; }
+        uint8_t f[64], src[6] = {0x00, 0x50, 0x56, 0x10, (uint8_t)(k >> 8), (uint8_t)k};
+        fb_base(f, W.iface[0].mac, src, 0, (k & 1) ? 0x04 : 0x03, W.iface[0].mac, src, 0);
+        vf_iface *fi = &W.iface[0]; memset(fi->recv, 0, fi->recv_prev_len);
+        drv_linux_deliver(0, f, 32);
+    }
+    vf_trace_clear();
+}
+static void pre_name09(int ev, char *buf, size_t cap) { if (ev >= FLOOD_BASE) snprintf(buf, cap, "%d observations with pairwise distinct sources (oldest: Probe from S0)", ev - FLOOD_BASE); else ev_name(ev, buf, cap); }
 static void seed_from_prefix(const int *prefix, int n, vf_snap **snaps) {
     vf_world_reset(); root_setup();
-    for (int i = 0; i < n; i++) { vf_trace_clear(); drv_linux(&EV[prefix[i]], prefix[i] == SIB_EV ? 1 : 0); }
+    for (int i = 0; i < n; i++) { vf_trace_clear(); if (prefix[i] >= FLOOD_BASE) { flood09(prefix[i] - FLOOD_BASE); continue; } drv_linux(&EV[prefix[i]], prefix[i] == SIB_EV ? 1 : 0); }
     vf_trace_clear(); drv_linux(&RESET0, 0);
     snaps[0] = vf_snapshot(NULL, 0);
     uint32_t epoch = W.env.icon_epoch;
@@ -108,7 +209,7 @@ static void seed_from_prefix(const int *prefix, int n, vf_snap **snaps) {
     W.env.icon_epoch = epoch;          /* the fresh responder starts on the same platform */
     snaps[1] = vf_snapshot(NULL, 0);
 }
-static e3_cfg c3 = { .nworlds = 2, .ev_name = cv_name, .pre_name = ev_name, .touches = touches, .apply = apply3,
+static e3_cfg c3 = { .nworlds = 2, .ev_name = cv_name, .pre_name = pre_name09, .touches = touches, .apply = apply3,
                      .sig_prefix = "post-reset-divergence", .sig_of = sig_of, .same_iface = 1, .seed_from_prefix = seed_from_prefix };
 
 int main(int argc, char **argv) {
@@ -137,11 +238,23 @@ int main(int argc, char **argv) {
     if (A.replay) {
         A.verbose = 1;
         if (mode == 9) return e3_replay_file(&c3, A.replay);
+        if (mode == 3 && A.a == 3) return e1_replay_file(&vscfg, A.replay);
+        if (mode == 2 && A.a == 4) return e1_replay_file(&nscfg, A.replay);
         return e1_replay_file(&cfg, A.replay);
     }
     double t0 = vf_now_s();
     e1_stats st;
-    if (mode == 2) {
+    if (mode == 3 && A.a == 3) {
+        memset(&st, 0, sizeof st);
+        value_sweep03();
+        st.transitions = vs_cases; st.fixpoint = 1;
+        vf_sample("Discover value sweep: {topology, quick} x {direct, bridged} x 10 prior states x generation 0..65535%s", vf_thorough() ? " and sequence number 0..65535" : " and every sequence number with a byte in {0,1,2,0xFE,0xFF}");
+    } else if (mode == 2 && A.a == 4) {
+        memset(&st, 0, sizeof st);
+        noise_sweep02();
+        st.transitions = ns_cases; st.fixpoint = 1;
+        vf_sample("noise sweep: 4 states x service {0,1,2,3,0xFF} x opcode 0..255 x seq {0,1,0x0100,0xFFFF} x {mapper, stranger} x {unicast, broadcast} x 2 bodies: every transmission well-formed and solicited by its request");
+    } else if (mode == 2) {
         cfg.record_outhash = 1;
         e1_run(&cfg, &st);
         uint64_t n1 = e1_outhash_n; uint64_t *h1 = malloc(8 * (n1 ? n1 : 1)); memcpy(h1, e1_outhash, 8 * n1);
@@ -161,6 +274,14 @@ int main(int argc, char **argv) {
         e3_begin(&c3);
         cfg.on_new_state = on_new_state; cfg.model_size = 0; cfg.model = NULL;
         e1_run(&cfg, &st);
+        /* directed seeds beyond the closure's reach: a mapper, then a see-list filled to / beyond its capacity (1024), then the Reset */
+        if (A.b != 1) for (int fi = 0; fi < 4; fi++) {
+            static const int FL[4] = {1023, 1024, 1025, 1100};
+            int disc = -1; for (int i = 0; i < NEV; i++) if (EV[i].opcode == 0 && EV[i].tos == 0 && EV[i].realsrc == ST_M1 && EV[i].ethsrc == ST_M1) { disc = i; break; }
+            int pre[2] = { disc, FLOOD_BASE + FL[fi] }; vf_snap *sn[E3_MAXW] = { NULL, NULL, NULL };
+            seed_from_prefix(pre, 2, sn); seeds_tried++;
+            e3_add_seed(sn, pre, 2); free(sn[0]); free(sn[1]);
+        }
         vf_extra("phase1", "closure from fresh: %llu states, %llu transitions, fixpoint=%d; Reset applied in every one of them; %u distinct (state.Reset, fresh) seed pairs", (unsigned long long)st.states, (unsigned long long)st.transitions, st.fixpoint, e3_nseeds());
         e3_stats s3; c3.deadline_s = cfg.deadline_s;
         e3_run(&s3);
